@@ -3,7 +3,7 @@
    run_site : site functions vs the real rendering functions
    run_pipe : predicted inertness of all sites fed by a document position vs the pipeline oracle's verdict
    Code per case: bit0 = model <> implementation, bit k = guard of finding k is false (see known_findings/C15.json). *)
-From PG Require Import Lib.Strs Corr.Driver Model.Escape.
+From PG Require Import Lib.Strs Corr.Driver Model.Escape Model.Names Model.Dedup.
 
 (* ---------- (i) *)
 Definition tr_nl := fix go (s : str) : str :=
@@ -40,6 +40,12 @@ Definition site_model_ok (c : site_case) : bool :=
         | _ => false
         end
       else if n =? 12 then site_docwriter_rel (join t aux) out && safe_doc_raw (concat aux)
+      else if n =? 17 then   (* aux = [text before; text after; str.upper(t) as computed by Python] *)
+        match aux with
+        | [pre; post; up] => str_eqb (pre ++ site_enum_default_u up ++ post) out
+                             && (if forallb is_ascii t then str_eqb (site_enum_default t) (site_enum_default_u up) else true)
+        | _ => false
+        end
       else false
   end.
 
@@ -51,6 +57,7 @@ Definition site_safe (n : N) (t : str) : bool :=
   else if n =? 9 then safe_alias_doc t
   else if n =? 10 then safe_field_comment t
   else if n =? 16 then no_chars bad_raw t
+  else if (17 <=? n) && (n <=? 19) then safe_enum_default t
   else safe_doc_raw t.
 (* finding bit of site n: 1 F15a enum  2 F15b Meta  3 F15c alias  4 F15d DocumentationWriter  5 F15e comment
    6 F15f query/header keys  7 F15g client docstring  8 F15h default  9 F15i discriminator  10 F15j media type
@@ -58,8 +65,8 @@ Definition site_safe (n : N) (t : str) : bool :=
 Definition site_finding (n : N) : N :=
   if n =? 1 then 1 else if n =? 2 then 2 else if (n =? 3) || (n =? 4) then 9 else if (n =? 5) || (n =? 6) then 6
   else if n =? 7 then 10 else if n =? 8 then 8 else if n =? 9 then 3 else if n =? 10 then 5 else if n =? 12 then 4
-  else if (n =? 15) || (n =? 16) then 7 else 11.
-Definition findings : list N := [1; 2; 3; 4; 5; 6; 7; 8; 9; 10; 11].
+  else if (n =? 15) || (n =? 16) then 7 else if (17 <=? n) && (n <=? 19) then 12 else 11.
+Definition findings : list N := [1; 2; 3; 4; 5; 6; 7; 8; 9; 10; 11; 12].
 Definition guards_for (ns : list N) (t : str) : list bool :=
   map (fun j => forallb (fun n => negb (site_finding n =? j) || site_safe n t) ns) findings.
 
@@ -99,8 +106,43 @@ Definition site_pred (n : N) (t : str) : bool :=
       else if n =? 13 then inert_doc_b (site_tag_doc t)
       else if n =? 15 then inert_doc_b (site_client_title [49;46;48] t)
       else if n =? 16 then no_chars bad_raw t
+      else if n =? 17 then   (* ASCII text: the attribute name is computed by the model; after the name only blanks or a comment *)
+        let (nm, r) := span is_ident_char (site_enum_default t) in
+        is_ident nm && match dropwhile (fun c => (c =? 32) || (c =? 9) || (c =? 12)) r with
+                       | [] => true
+                       | c :: r' => (c =? 35) && single_physical_line r'
+                       end
+      else if n =? 18 then true      (* non-ASCII text: Python's str.upper + str.isidentifier verdict supplied by the harness *)
+      else if n =? 19 then false
       else inert_doc_b (block_line t)
   end.
 Definition pipe_model (c : list N * str) : bool := forallb (fun n => site_pred n (snd c)) (fst c).
 Definition run_pipe (cases : list ((list N * str) * bool)) : list N :=
   report Bool.eqb pipe_model (fun c => guards_for (fst c) (snd c)) cases.
+
+(* ---------- (iv) names: text that the generator turns into an identifier.  Predicted verdict of the pipeline oracle
+   from property C20's model of the sanitisers (Model/Names.v); guards = the C20 findings that already break it.
+   kind 1: property / parameter / path-variable names, operationId  -> sanitize_method_name
+   kind 2: tag -> sanitize_module_name (ASCII tags: computed; non-ASCII: str.isidentifier verdict [py] from the harness)
+   kind 3: component schema name -> sanitize_class_name
+   guard bits: 1 F20b (no ASCII letter/digit -> empty name)  2 F20c (tag without ASCII letter/digit)
+               3 F20h (non-ASCII tag)  4 F20a (schema named None/True/False)  5 F20k (class name not idempotent) *)
+Definition no_u : N -> bool := fun _ => false.
+Definition id_u : N -> str := fun c => [c].
+Definition module_name_ascii (s : str) : str := module_name no_u id_u no_u no_u no_u s.
+Definition name_pred (c : (N * str) * bool) : bool :=
+  let '((k, t), py) := c in
+  if k =? 1 then valid_name (method_name t)
+  else if k =? 2 then (if forallb is_ascii t then valid_name (module_name_ascii t) else py)
+  else valid_name (class_name t) && str_eqb (class_name (class_name t)) (class_name t).
+(* bits 1, 2, 4 were the guards of F20b, F20c, F20a (fixed in /repo: the sanitisers no longer return an empty name or a
+   keyword); they are kept as constant true so that the bit numbering of the remaining findings is stable *)
+Definition name_guards (c : (N * str) * bool) : list bool :=
+  let '((k, t), _) := c in
+  [true;
+   true;
+   negb (k =? 2) || forallb is_ascii t;
+   true;
+   negb (k =? 3) || str_eqb (class_name (class_name t)) (class_name t)].
+Definition run_names (cases : list (((N * str) * bool) * bool)) : list N :=
+  report Bool.eqb name_pred name_guards cases.
